@@ -1,6 +1,7 @@
 """C04 - globmatch with REALPATH matches exactly what glob globs."""
 import os
 
+from . import c06 as C06
 from ..runner import Outcome, HarnessError
 from .. import ast as A, ref as R, trees as T, walker as W, fscommon as FC, findings as K, util
 from ..util import G
@@ -67,6 +68,12 @@ def classify(pp_list, excl, cfg, p, glob_only, model, root):
         firstgs = isinstance(pp.segs[0], str)
         if firstgs and cfg.get('matchbase') and all(isinstance(s_, str) for s_ in pp.segs) and not pp.trail:
             ids.add('K17')
+        if glob_only and not FC.follows_links(cfg):
+            comps = [c_ for c_ in W.strip_sep(p).split('/') if c_ != '']
+            if comps and '..' not in comps:
+                lf = C06.link_flags(root, comps)
+                if any(lf[:-1]) and C06.ambiguous_link_alignment(comps, lf, C06.seg_list(pp, cfg), bool(cfg.get('icase'))):
+                    ids.add('K29')
         text = A.render_path(pp)
         # language-level defects show on one side only when the walker never offers the name (`.`/`..`) or offers it
         # to a differently assembled regex
